@@ -137,7 +137,9 @@ def last_segment(path):
         depth = 0
         i = len(p) - 1
         while i >= 0:
-            if p[i] == ">":
+            if p[i] == ">" and i > 0 and p[i - 1] == "-":
+                pass                      # the arrow of a fn type, not a bracket
+            elif p[i] == ">":
                 depth += 1
             elif p[i] == "<":
                 depth -= 1
